@@ -75,6 +75,8 @@ class UnitsAdapter:
                 kw = {}
                 if it['ref'] != 'NONE':
                     kw['ref_unit_symbol'] = it['ref']
+                if tuple(it['f']) != (0, 0):
+                    kw['quantum'] = frac(it['f'])
                 cls = QM(it['name'], (Q,), {}, **kw)
                 self.types[it['name']] = cls
                 return 'accepted', cls
@@ -245,10 +247,16 @@ class UnitsAdapter:
                     dev('parse-type', 'Quantity(%r) is a %s, specification: %s' % ('1 ' + asym, type(q).__name__, su['typ']))
             except Exception as exc:
                 dev('parse-raises', 'Quantity(%r) raises %s' % ('1 ' + asym, type(exc).__name__))
+            if tuple(st.get('q', (0, 0))) != (0, 0) and cls is not None:
+                want_q = frac(st['q']) / frac(su['num'])
+                if cls.quantum != frac(st['q']) or u.quantum != want_q:
+                    dev('quantum', 'unit %r has quantum %s, specification: %s' % (asym, u.quantum, want_q))
             if st['ref'] != 'NONE':
                 try:
                     ref = Unit(self.actual(st['ref']))
-                    sc = Fraction((1 * u).convert(ref).amount)
+                    # probe amount: 1, or a value on the unit's grid for quantized types
+                    amt = Fraction(1) if u.quantum is None else Fraction(u.quantum) * 12
+                    sc = Fraction((amt * u).convert(ref).amount) / amt
                     if sc != frac(su['num']):
                         dev('scale', 'unit %r has scale %s, its definition denotes %s' % (asym, sc, frac(su['num'])))
                 except Exception as exc:
